@@ -4,6 +4,7 @@ import (
 	"encoding/json"
 	"fmt"
 	"os"
+	"runtime"
 	"strconv"
 	"strings"
 	"sync"
@@ -98,10 +99,42 @@ func finiteCheck(prop, which string) *sqrun.Check {
 					}
 				}
 			}
+			// every capacity up to 48 (thorough 130), 64 and 100: one all-Put history per length around the wrap points, all probes
+			sweep := 0
+			if which == "C08" {
+				maxN := 48
+				if c.Thorough {
+					maxN = 130
+				}
+				var ns []int
+				for n := 5; n <= maxN; n++ {
+					ns = append(ns, n)
+				}
+				if !c.Thorough {
+					ns = append(ns, 64, 100)
+				}
+				var wg sync.WaitGroup
+				var smu sync.Mutex
+				sem := make(chan struct{}, runtime.NumCPU())
+				for _, n := range ns {
+					wg.Add(1)
+					sem <- struct{}{}
+					go func() {
+						defer wg.Done()
+						defer func() { <-sem }()
+						k := linearFinite(c, "C08", n)
+						smu.Lock()
+						sweep += k
+						smu.Unlock()
+					}()
+				}
+				wg.Wait()
+			}
 			cov := ev.Coverage{"states": states, "transitions": trans, "traces_validated_against_impl": trans,
-				"evaluations": trans + probes, "distinct_nontrivial": states, "exhaustive": exhaustive, "probes": probes,
-				"rule":    "Explicit-state BFS over operation histories of the real FiniteReplayer (fresh object per history, re-executed), alphabet " + strings.Join(FiniteOps, " | ") + ", capacities and depths per configuration below; states deduplicated by the reflective hash of the replayer's concrete private state plus the reference model; in every state every probe Replay(ID x topics x failing-Send position) is compared with a list model of the last N accepted events. distinct_nontrivial = distinct concrete states.",
-				"samples": samples, "per_configuration": per}
+				"evaluations": trans + probes + int64(sweep), "distinct_nontrivial": states, "exhaustive": exhaustive, "probes": probes,
+				"linear_capacity_sweep_histories": sweep,
+				"rule":                            "Explicit-state BFS over operation histories of the real FiniteReplayer (fresh object per history, re-executed), alphabet " + strings.Join(FiniteOps, " | ") + ", capacities and depths per configuration below; states deduplicated by the reflective hash of the replayer's concrete private state plus the reference model; in every state every probe Replay(ID x topics x failing-Send position) is compared with a list model of the last N accepted events. Plus, for every capacity 5..48 (thorough: ..130), 64 and 100, the all-Put histories of length N-1, N, N+1, 2N-1, 2N, 2N+1, 3N+2 in both ID modes with all probes. distinct_nontrivial = distinct concrete states.",
+				"samples":                         samples, "per_configuration": per}
 			return &sqrun.Outcome{Level: "model_checking", Coverage: cov, Assumptions: []string{
 				"equal concrete state (reflective hash over all private fields, slices to capacity) and deterministic code imply equal futures",
 				"with automatic IDs, an ID that was issued but is already evicted is outside the property: only order/uniqueness/topic clauses are checked for it",
